@@ -89,7 +89,8 @@ def validate(ctx, name, events, must_hit=()):
             e = part[l - 1]
             ctx.report(key_of(e, clause), what_of(e, clause), [e])
     for h in must_hit:
-        if hits.get(h, 0) == 0:
+        # vacuity is an error of a *passing* run; a run that already found violations reports those
+        if hits.get(h, 0) == 0 and not ctx.violations and not ctx.known_hits:
             raise vlib.ToolError("vacuous trace run: clause %s never exercised in %s" % (h, name))
     return hits
 
@@ -137,6 +138,8 @@ def run(ctx):
         for k, n in hits.items():
             all_hits[k] = all_hits.get(k, 0) + n
         all_events += ev
+    if all_hits.get("ModelMismatch", 0):
+        raise vlib.ToolError("design model interval differs from the closed form on %d replayed inputs: the model is wrong" % all_hits["ModelMismatch"])
     if all_hits.get("Unfit", 0):
         raise vlib.ToolError("%d events whose integers do not fit the specification's range" % all_hits["Unfit"])
     ctx.evaluations = len(all_events)
